@@ -84,15 +84,19 @@ func VerifH_C16_Patterns() {
 func VerifH_C16_Identities() {
 	m1 := "module m1 { namespace 'urn:m1'; prefix m1; identity base; identity a { base base; } identity aa { base a; } identity other; " +
 		"leaf x { type identityref { base base; } } leaf e { type enumeration { enum a; enum bb; enum c { value 7; } } } }"
-	m2 := "module m2 { namespace 'urn:m2'; prefix m2; import m1 { prefix p; } identity b { base p:base; } identity bb { base b; } identity aa { base p:other; } " +
+	m2 := "module m2 { namespace 'urn:m2'; prefix m2; import m1 { prefix p; } identity b { base p:base; } identity bb { base b; } identity aa { base p:other; } identity a { base p:base; } " +
 		"leaf y { type identityref { base p:base; } } }"
+	vrt.MapOrder(vrt.Choice("map-order-policy", 6)) // the closure is collected while ranging over maps
 	ms, err := compileTexts(map[string]string{"m1": m1, "m2": m2}, featSet{}, nil)
+	vrt.MapOrder(0)
 	if err != nil {
 		vrt.Observe("compile-error", err.Error())
 		vrt.Assert(false, "c16.identities.compiles")
 		return
 	}
 	names := []string{"base", "a", "aa", "b", "bb", "other", "m1:a", "m1:aa", "m2:b", "m2:bb", "m2:aa", "m1:base", "m2:a", ""}
+	// m1:a and m2:a share their local name and are BOTH derived from the base: each leaf
+	// accepts both, the own-module one bare, the foreign one prefixed
 	var v string
 	if vrt.Bool("symbolic") {
 		v = c16Value("v", vrt.Param("L", 3), "abm12:")
@@ -103,15 +107,29 @@ func VerifH_C16_Identities() {
 	var want bool
 	switch leafName {
 	case "x": // in m1: own identities bare, foreign ones prefixed with their module name
-		want = v == "a" || v == "aa" || v == "m2:b" || v == "m2:bb"
+		want = v == "a" || v == "aa" || v == "m2:b" || v == "m2:bb" || v == "m2:a"
 	case "y": // in m2
-		want = v == "m1:a" || v == "m1:aa" || v == "b" || v == "bb"
+		want = v == "m1:a" || v == "m1:aa" || v == "b" || v == "bb" || v == "a"
 	default:
 		want = v == "a" || v == "bb" || v == "c"
 	}
 	vrt.Reach("c16.identities." + leafName)
 	leaf := ms.Child(leafName).(schema.Leaf)
 	verr := leaf.Type().Validate(c13Ctx{}, []string{leafName}, v)
-	vrt.Observe("verdict", leafName, v, verr == nil)
-	vrt.Assert((verr == nil) == want, "c16.identities.verdict")
+	vrt.Observe("verdict", leafName, v, want)
+	agrees := (verr == nil) == want
+	if !vrt.Symbolic() {
+		// native confirmation: the identity closure is collected while ranging over Go
+		// maps; a verdict that depends on that order shows when the compile is repeated
+		for r := 0; r < 40 && agrees; r++ {
+			again, e := compileTexts(map[string]string{"m1": m1, "m2": m2}, featSet{}, nil)
+			if e != nil {
+				agrees = false
+				break
+			}
+			ve := again.Child(leafName).(schema.Leaf).Type().Validate(c13Ctx{}, []string{leafName}, v)
+			agrees = (ve == nil) == want
+		}
+	}
+	vrt.Assert(agrees, "c16.identities.verdict")
 }
